@@ -58,6 +58,17 @@ def r18(ctx: Ctx) -> RuleReport:
                     h = pm[id(h)]
                     if isinstance(h, ast.ExceptHandler):
                         cls = norm(h.type) if h.type is not None else 'BaseException'
+                        if cls in ('Exception', 'BaseException'):
+                            # a bare re-raise under a blanket handler lets through exactly what the guarded statements raise
+                            tr = pm.get(id(h))
+                            body = tr.body if isinstance(tr, ast.Try) else []
+                            from .small import _explicit_raises
+                            lib = _explicit_raises(ctx, f, body)
+                            nxt = any(isinstance(x, ast.Call) and isinstance(x.func, ast.Name) and x.func.id == 'next' for st in body for x in ast.walk(st))
+                            if nxt and not (lib - {'DecodeError'}):
+                                cls = 'StopIteration'
+                            elif lib and not (lib - {'DecodeError'}):
+                                cls = 'DecodeError'
                         break
                 cls = cls or '?'
             else:
